@@ -314,9 +314,14 @@ M_BTMOD.harnesses.append(H("u12_codec_header_and_null_child", "U12"))
 M_BTMOD.harnesses.append(H("u19_tree_column_maintenance_reaches_every_table", "U19", kind="bounded", bound="a btree column with 3 value tables"))
 M_COLUMN.harnesses.append(H("u19_hash_column_maintenance_reaches_every_table", "U19", kind="bounded", bound="a hash column with 1 value table"))
 
+M_DB = KModule("db", "src/db.rs", "verif_db", "db.rs", deps=(M_LOG,))
+M_DB.harnesses.append(H("u21_replay_applies_only_the_next_record_in_sequence", "U21", kind="bounded",
+                        shape="DbInner::enact_logs(validation) on one empty record with arbitrary record id and arbitrary last-enacted id",
+                        bound="a database without columns and a record without actions; Log::{read_next,end_read,clear_replay_logs} and LogReader::{next,reset} by contract"))
+
 # units whose harnesses call the real code without recorder / contract stubs: Kani's counterexample replays natively
 NATIVE_REPLAY_UNITS = {"U1", "U2", "U4", "U5", "U7", "U11"}
-KMODULES = {"index": M_INDEX, "table": M_TABLE, "log": M_LOG, "column": M_COLUMN, "ref_count": M_REFCOUNT, "btree_node": M_BTNODE, "btree_mod": M_BTMOD}
+KMODULES = {"index": M_INDEX, "table": M_TABLE, "log": M_LOG, "column": M_COLUMN, "ref_count": M_REFCOUNT, "btree_node": M_BTNODE, "btree_mod": M_BTMOD, "db": M_DB}
 
 
 def kmodule_of_unit(unit):
@@ -390,7 +395,7 @@ PROPS["C14"] = {
     "does_not_cover": ["the global invariant over histories", "btree reachability / depth", "node reference counts", "index slot removed in the same plan as its value (caller property)"],
 }
 PROPS["C13"] = {
-    "kani_units": ["U9"],
+    "kani_units": ["U9", "U21"],
     "verus_units": ["log_mask_walk"],
     "level": "proof",
     "technique": "Kani/CBMC contracts on the real validate_plan functions with LogReader::read replaced by its contract (arbitrary bytes or failure)",
@@ -474,6 +479,8 @@ UNIT_META = {
     "U19": {"functions": ["column::Column::{refresh_metadata,complete_plan}", "column::HashColumn::{refresh_metadata,complete_plan}", "btree::BTreeTable::{refresh_metadata,complete_plan}"],
             "assumes": ["ValueTable::{refresh_metadata,complete_plan} replaced by counters (their own contracts: U14.complete_plan.*)"]},
     "U20": {"functions": ["column::HashColumn::reindex"], "assumes": ["IndexTable::entries returns the chunk's entries (U1)"]},
+    "U21": {"functions": ["db::DbInner::enact_logs (validation mode: sequence gate, validate-then-apply order)"],
+            "assumes": ["Log::{read_next,end_read,clear_replay_logs} and LogReader::{next,reset} replaced by contracts; the record has no actions"]},
     "U11": {"functions": ["column::{unpack_node_data,unpack_node_children,packed_node_size,packed_child_count}"], "assumes": []},
     "U14": {"functions": ["table::ValueTable::{clear_slot,next_free,read_next_free,complete_plan,write_remove_plan,clear_chain}"], "assumes": ["LogWriter ghost view"]},
     "index_search": {"functions": ["index::Entry::*", "index::Address::*", "index::IndexTable::{chunk_index,find_entry_base}"], "assumes": ["read_entry contract (external_body; proved by Kani U1.read_entry_is_le_word)"]},
